@@ -122,6 +122,10 @@ def _plan_copy(h: ast.FunctionDef, x: str, m: str, trees: Dict[str, ast.Module],
             if g in tx and f"{m}.{g}" in known and isinstance(tm[g], ast.FunctionDef) and isinstance(tx[g], ast.FunctionDef) \
                     and ast.dump(tm[g]) == ast.dump(tx[g]):
                 continue                  # the same known function, already put back in m
+            if g in tx and isinstance(tm[g], (ast.Assign, ast.AnnAssign)) and isinstance(tx[g], (ast.Assign, ast.AnnAssign)) \
+                    and ast.dump(tm[g].value) == ast.dump(tx[g].value) \
+                    and not any(isinstance(n_, (ast.Name, ast.Call, ast.Attribute)) for n_ in ast.walk(tm[g].value)):
+                continue                  # the same literal constant on both sides
             return None                   # m defines something else under that name
         else:
             st = _import_stmt(want, g, x)
@@ -190,6 +194,22 @@ def rehome(trees: Dict[str, ast.Module], known: Set[str]) -> Dict[str, int]:
                 for a in list(s.names):
                     h = _top(trees[x]).get(a.name)
                     local = a.asname or a.name
+                    if isinstance(h, (ast.Assign, ast.AnnAssign)) and local == a.name and local not in _top(tree) and h.value is not None \
+                            and not any(isinstance(n_, (ast.Name, ast.Call, ast.Attribute)) for n_ in ast.walk(h.value)) \
+                            and sum(1 for s_ in ast.walk(trees[x]) if isinstance(s_, ast.Name) and s_.id == a.name and isinstance(s_.ctx, ast.Store)) == 1:
+                        # a module constant (a literal bound once) that moved: the importing module gets its own copy
+                        cst = copy.deepcopy(h)
+                        s.names.remove(a)
+                        if not s.names:
+                            tree.body.remove(s)
+                        at_ = 0
+                        for i_, s_ in enumerate(tree.body):
+                            if isinstance(s_, (ast.Import, ast.ImportFrom)) or (i_ == 0 and isinstance(s_, ast.Expr) and isinstance(s_.value, ast.Constant)):
+                                at_ = i_ + 1
+                        tree.body.insert(at_, cst)
+                        stats["T25 function re-homed"] += 1
+                        changed = True
+                        continue
                     if not isinstance(h, ast.FunctionDef) or f"{x}.{a.name}" in known or local in _top(tree):
                         continue
                     if any(q.endswith("." + a.name) and q.count(".") == 1 and q.split(".")[0] != m for q in known):
